@@ -1,2 +1,110 @@
-(* Property C04 - statements only (proofs in Proofs/C04.v). Not built yet. *)
-From SC.Model Require Import Base.
+(* Property C04 - evaluation never changes the calculator; sessions isolate and persist.
+   STATEMENTS ONLY (proofs: Proofs/C04.v, Proofs/SessionLemmas.v).  The public API is the state
+   machine Corr.step over [mstate = {m_cfg; m_sessions}]; [final ck m ops] is the state after a
+   history, [run] the observations.  [eval_lines] (SessionLemmas.v) is the reference: the lines
+   evaluated once each, in order, threading the variables. *)
+From Coq Require Import Floats.
+From SC.Model Require Import Base Num NumF64 Types Config Case Chrono UiTokens Rx Post Parser Items Interp
+     RuleFns Rules Format Lexer Api Run64 Corr.
+From SC.Proofs Require Import SessionLemmas C04.
+
+(* evaluating text changes neither the configuration nor any session *)
+Theorem C04_execute_pure : forall ck m lang text, fst (step ck m (OExec lang text)) = m.
+Proof. exact execute_pure. Qed.
+
+(* ... and its result is a function of the configuration, the text, the language and the clock *)
+Theorem C04_execute_obs : forall ck m lang text,
+  snd (step ck m (OExec lang text)) =
+  match execute LX ck (m_cfg m) lang text with Ok r => MRes r | Panic st => MPanic st end.
+Proof. exact execute_obs. Qed.
+
+(* all histories of evaluations and session activity, of any length, leave the configuration
+   unchanged ... *)
+Theorem C04_eval_keeps_config : forall ck ops m,
+  forallb eval_op ops = true -> m_cfg (final ck m ops) = m_cfg m.
+Proof. exact eval_keeps_config. Qed.
+
+(* ... so running any other evaluations before a text does not change its results *)
+Theorem C04_history_independence : forall ck ops m lang text,
+  forallb eval_op ops = true ->
+  run ck m (ops ++ [OExec lang text]) = run ck m ops ++ run ck m [OExec lang text].
+Proof. exact history_independence_run. Qed.
+
+(* separate evaluations share no variables: each starts from the empty environment and is the
+   in-order fold over its own lines *)
+Theorem C04_execute_fresh_env : forall ck m lang text,
+  snd (step ck m (OExec lang text)) =
+  match eval_lines LX ck (m_cfg m) lang [] (split_lines text []) with
+  | Panic st => MPanic st
+  | Ok (os, _) => MRes {| er_status := true; er_lines := os |}
+  end.
+Proof. exact execute_fresh_env. Qed.
+
+(* operations that do not address session b never change it: all histories *)
+Theorem C04_sessions_isolated : forall ck b ops m,
+  Forall (fun o => op_session o <> Some b) ops ->
+  sess_get b (m_sessions (final ck m ops)) = sess_get b (m_sessions m).
+Proof. exact sessions_isolated_history. Qed.
+
+(* a new text on a session, whatever was set or run before (any cursor position): every line
+   is evaluated exactly once, in order, against the variables the session holds; status is
+   true; the resulting variables are stored back; the calculator is unchanged *)
+Theorem C04_set_text_then_execute : forall ck m sid se text,
+  sess_get sid (m_sessions m) = Some se ->
+  let m1 := fst (step ck m (OSetText sid text)) in
+  match eval_lines LX ck (m_cfg m) (se_language se) (se_vars se) (split_lines text []) with
+  | Panic st => step ck m1 (OExecSession sid) = (m1, MPanic st)
+  | Ok (os, vs') =>
+    snd (step ck m1 (OExecSession sid)) = MRes {| er_status := true; er_lines := os |} /\
+    length os = length (split_lines text []) /\
+    option_map (fun s => se_vars s) (sess_get sid (m_sessions (fst (step ck m1 (OExecSession sid))))) = Some vs' /\
+    m_cfg (fst (step ck m1 (OExecSession sid))) = m_cfg m
+  end.
+Proof. exact set_text_then_execute. Qed.
+
+(* a re-used session keeps its variables across texts of differing line counts *)
+Theorem C04_session_persists : forall ck m sid se text1 text2 os1 vs1,
+  sess_get sid (m_sessions m) = Some se ->
+  eval_lines LX ck (m_cfg m) (se_language se) (se_vars se) (split_lines text1 []) = Ok (os1, vs1) ->
+  let m2 := final ck m [OSetText sid text1; OExecSession sid; OSetText sid text2] in
+  snd (step ck m2 (OExecSession sid)) =
+  match eval_lines LX ck (m_cfg m) (se_language se) vs1 (split_lines text2 []) with
+  | Panic st => MPanic st
+  | Ok (os2, _) => MRes {| er_status := true; er_lines := os2 |}
+  end.
+Proof. exact session_persists. Qed.
+
+(* the reference fold really has one slot per line *)
+Theorem C04_eval_lines_length : forall cfg lang vs lines os vs',
+  eval_lines LX CK0 cfg lang vs lines = Ok (os, vs') -> length os = length lines.
+Proof. exact (eval_lines_length LX CK0). Qed.
+
+(* non-vacuity, computed through the whole model at binary64: a three-line text then a
+   one-line text on one session (the history that used to end with status=false), and an
+   execute in between that sees none of the session's variables *)
+Definition c04_ck : clock := {| ck_today := 20000; ck_year := 2024 |}.
+Definition c04_hist : list op :=
+  [ONewSession 1; OSetLanguage 1 (s "en"); OSetText 1 (s "x = 2" ++ [10%N] ++ s "y = x * 3" ++ [10%N] ++ s "y + 1");
+   OExecSession 1; OExec (s "en") (s "y + 1"); OSetText 1 (s "x + y"); OExecSession 1].
+Definition outs (o : mobs) : list (option str) :=
+  match o with
+  | MRes r => map (fun l => match l with
+                            | Some lo => match lo_result lo with LOk out _ => Some out | LErr _ => None end
+                            | None => None end) (er_lines r)
+  | _ => []
+  end.
+Theorem C04_example :
+  map outs (run c04_ck init_state c04_hist) =
+  [[]; []; []; [Some (s "2"); Some (s "6"); Some (s "7")]; [Some (s "1")]; []; [Some (s "8")]].
+Proof. vm_compute. reflexivity. Qed.
+
+Print Assumptions C04_execute_pure.
+Print Assumptions C04_execute_obs.
+Print Assumptions C04_eval_keeps_config.
+Print Assumptions C04_history_independence.
+Print Assumptions C04_execute_fresh_env.
+Print Assumptions C04_sessions_isolated.
+Print Assumptions C04_set_text_then_execute.
+Print Assumptions C04_session_persists.
+Print Assumptions C04_eval_lines_length.
+Print Assumptions C04_example.
